@@ -1439,7 +1439,116 @@ proof fn lemma_anm_rel_raak(o: State, m: Mapping, e0: Seq<Event>, c: Seq<Event>,
   }
 }
 
-//@ C01 C02 C03 C05 C07 C08 C09 C14 C19 | default: fn add_new_mapping
+// ---- C04: what is down at the instant the final output key of a key-producing mapping is pressed ----
+/// x is an output key of a modifier-remapping (a mapping whose output does not end in a non-modifier key) of `am`
+spec fn mod_owner(am: Seq<Mapping>, x: KeyCode) -> bool { exists|j: int| 0 <= j < am.len() && !act_map(#[trigger] am[j]) && am[j].to@.contains(x) }
+/// C04 for mapping m with h down: every modifier m lists is down; every other modifier that is down is considered pressed and not a trigger key of m, or is an output key of a modifier-remapping in effect
+spec fn c04_ok(h: Set<KeyCode>, m: Mapping, ip: Seq<KeyCode>, am: Seq<Mapping>) -> bool {
+  &&& (forall|q: KeyCode| #[trigger] m.to@.contains(q) && is_mod(q) ==> h.contains(q))
+  &&& (forall|x: KeyCode| #![trigger h.contains(x)] h.contains(x) && is_mod(x) && !m.to@.contains(x) ==> (ip.contains(x) && !m.from@.contains(x)) || mod_owner(am, x))
+}
+#[verifier::opaque]
+spec fn c04_anm(o: State, m: Mapping, evs: Seq<Event>) -> bool {
+  forall|p: int| #![trigger evs[p]] 0 <= p < evs.len() && evs[p] == Event::Pressed(m.to@.last()) ==> (match apply(held(o), evs.take(p)) { Some(h) => c04_ok(h, m, o.input_pressed_keys@, o.active_mappings@), None => false })
+}
+/// the condition under which C04 is claimed for the firing of m in state o
+spec fn c04_cond(o: State, m: Mapping) -> bool { m.to@.no_duplicates() && act_map(m) && o.mapped_absorbed_keys@.len() == 0 && j2(o) }
+#[verifier::opaque]
+spec fn c04_st(st: State, o: State, m: Mapping) -> bool {
+  &&& (forall|x: KeyCode| #[trigger] st.pass_through_keys@.contains(x) ==> o.input_pressed_keys@.contains(x) && !m.from@.contains(x))
+  &&& (forall|x: KeyCode| #[trigger] st.mapped_output_keys@.contains(x) ==> !is_mod(x) || m.to@.contains(x) || mod_owner(o.active_mappings@, x))
+}
+spec fn no_fin(evs: Seq<Event>, fin: KeyCode) -> bool { forall|p: int| 0 <= p < evs.len() ==> #[trigger] evs[p] != Event::Pressed(fin) }
+proof fn lemma_no_fin_released(evs: Seq<Event>, fin: KeyCode)
+  requires all_released(evs)
+  ensures no_fin(evs, fin)
+{ assert forall|p: int| 0 <= p < evs.len() implies #[trigger] evs[p] != Event::Pressed(fin) by { assert(evs.contains(evs[p])); } }
+// state after the release phases and the hand-over of passed-through keys: passed-through keys are considered pressed and no trigger keys; modifiers held for mappings belong to modifier-remappings
+proof fn lemma_c04_st_init(o: State, sr: State, st: State, m: Mapping)
+  requires
+    //@ C04 | no stale modifier is left after the release phases
+    j1(o), j2(o), ram_done(sr), sr.active_mappings@ == o.active_mappings@, sub(sr.mapped_output_keys@, o.mapped_output_keys@),
+    forall|x: KeyCode| #[trigger] st.mapped_output_keys@.contains(x) ==> sr.mapped_output_keys@.contains(x) || m.to@.contains(x),
+    forall|x: KeyCode| #[trigger] st.pass_through_keys@.contains(x) ==> o.pass_through_keys@.contains(x) && !m.from@.contains(x),
+  ensures c04_st(st, o, m)
+{
+  reveal(c04_st); reveal(ram_done);
+  assert forall|x: KeyCode| #[trigger] st.mapped_output_keys@.contains(x) implies !is_mod(x) || m.to@.contains(x) || mod_owner(o.active_mappings@, x) by {
+    if is_mod(x) && !m.to@.contains(x) {
+      assert(sr.mapped_output_keys@.contains(x)); assert(o.mapped_output_keys@.contains(x)); assert(out_of(o.active_mappings@, x));
+      let am = o.active_mappings@;
+      let j = choose|j: int| 0 <= j < am.len() && #[trigger] am[j].to@.contains(x);
+      if act_map(am[j]) {
+        let t = choose|t: int| 0 <= t < am[j].to@.len() && am[j].to@[t] == x;
+        assert(t != am[j].to@.len() - 1); assert(is_mod(am[j].to@[t])); assert(has_mod(am[j].to@));
+        assert(ram_target(sr.active_mappings@, x));
+      }
+    }
+  }
+}
+// one output key handled: the state predicate is kept; the final key has not been pressed before its turn, and when it is pressed C04 holds at that instant
+proof fn lemma_c04_iter(o: State, m: Mapping, s0: State, s1: State, e0: Seq<Event>, e1: Seq<Event>, idx: int)
+  requires
+    //@ C04 | the instant the final output key goes down: listed modifiers down, no stale modifier
+    0 <= idx < m.to@.len(), m.to@.no_duplicates(), act_map(m),
+    c04_st(s0, o, m), apply(held(o), e0) == Some(held(s0)), apply(held(o), e1) == Some(held(s1)),
+    no_fin(e0, m.to@.last()), out_done(m.to@, idx, e0, held(s0)),
+    sub(s1.pass_through_keys@, s0.pass_through_keys@), forall|x: KeyCode| #[trigger] s1.mapped_output_keys@.contains(x) ==> s0.mapped_output_keys@.contains(x) || x == m.to@[idx],
+    e1 == e0 || e1 == e0.push(Event::Pressed(m.to@[idx])) || e1 == e0.push(Event::Released(m.to@[idx])).push(Event::Pressed(m.to@[idx])),
+    !is_mod(m.to@[idx]) ==> e1 != e0,
+  ensures
+    c04_st(s1, o, m),
+    idx < m.to@.len() - 1 ==> no_fin(e1, m.to@.last()),
+    idx == m.to@.len() - 1 ==> c04_anm(o, m, e1),
+{
+  reveal(c04_st);
+  let nk = m.to@[idx]; let fin = m.to@.last(); let n = m.to@.len() as int;
+  assert(m.to@.contains(nk));
+  if idx < n - 1 {
+    assert(nk != fin) by { assert(m.to@[n - 1] == fin); }
+    assert forall|p: int| 0 <= p < e1.len() implies #[trigger] e1[p] != Event::Pressed(fin) by { if p < e0.len() { assert(e1[p] == e0[p]); } }
+  } else {
+    assert(nk == fin); assert(!is_mod(fin));
+    reveal(c04_anm);
+    let h0 = held(s0);
+    assert forall|p: int| #![trigger e1[p]] 0 <= p < e1.len() && e1[p] == Event::Pressed(fin) implies (match apply(held(o), e1.take(p)) { Some(h) => c04_ok(h, m, o.input_pressed_keys@, o.active_mappings@), None => false }) by {
+      if p < e0.len() { assert(e1[p] == e0[p]); }
+      let h = if e1 == e0.push(Event::Pressed(fin)) { assert(p == e0.len()); assert(e1.take(p) =~= e0); h0 }
+              else { assert(e1.len() == e0.len() + 2); assert(p == e0.len() + 1);
+                     let em = e0.push(Event::Released(fin)); assert(e1.take(p) =~= em); assert(em.drop_last() =~= e0); assert(e1.drop_last() =~= em);
+                     assert(apply(held(o), em) == ev1(h0, Event::Released(fin))); assert(apply(held(o), e1) == (match apply(held(o), em) { None => None, Some(hh) => ev1(hh, Event::Pressed(fin)) }));
+                     h0.remove(fin) };
+      assert(apply(held(o), e1.take(p)) == Some(h));
+      assert forall|q: KeyCode| #[trigger] m.to@.contains(q) && is_mod(q) implies h.contains(q) by {
+        let t = choose|t: int| 0 <= t < n && m.to@[t] == q; assert(t != n - 1); assert(h0.contains(m.to@[t]));
+      }
+      assert forall|x: KeyCode| #![trigger h.contains(x)] h.contains(x) && is_mod(x) && !m.to@.contains(x) implies (o.input_pressed_keys@.contains(x) && !m.from@.contains(x)) || mod_owner(o.active_mappings@, x) by {
+        assert(h0.contains(x)); lemma_ts(s0.pass_through_keys@, x); lemma_ts(s0.mapped_output_keys@, x);
+      }
+    }
+  }
+}
+proof fn lemma_c04_append(o: State, m: Mapping, e0: Seq<Event>, c: Seq<Event>)
+  requires
+    //@ C04 | the instant the final output key goes down: listed modifiers down, no stale modifier
+    c04_anm(o, m, e0), all_released(c)
+  ensures c04_anm(o, m, e0 + c)
+{
+  reveal(c04_anm);
+  let e1 = e0 + c;
+  assert forall|p: int| #![trigger e1[p]] 0 <= p < e1.len() && e1[p] == Event::Pressed(m.to@.last()) implies (match apply(held(o), e1.take(p)) { Some(h) => c04_ok(h, m, o.input_pressed_keys@, o.active_mappings@), None => false }) by {
+    if p >= e0.len() { assert(c[p - e0.len()] == e1[p]); assert(c.contains(e1[p])); }
+    assert(e1[p] == e0[p]); assert(e1.take(p) =~= e0.take(p));
+  }
+}
+proof fn lemma_c04_mono(s1: State, o: State, m: Mapping, evs: Seq<Event>)
+  requires
+    //@ C04 | the instant the final output key goes down: listed modifiers down, no stale modifier
+    c04_anm(s1, m, evs), s1.pass_through_keys@ == o.pass_through_keys@, s1.mapped_output_keys@ == o.mapped_output_keys@, s1.input_pressed_keys@ == o.input_pressed_keys@, s1.active_mappings@ == o.active_mappings@
+  ensures c04_anm(o, m, evs)
+{ reveal(c04_anm); assert(held(s1) == held(o)); }
+
+//@ C01 C02 C03 C04 C05 C07 C08 C09 C14 C19 | default: fn add_new_mapping
 fn add_new_mapping(state: &mut State, new_key: &KeyCode, m: &Mapping) -> (res: StepResult)
   requires
     //@ C19 | bookkeeping equals the fold of the emitted events; no redundant press or release
@@ -1480,6 +1589,8 @@ fn add_new_mapping(state: &mut State, new_key: &KeyCode, m: &Mapping) -> (res: S
     only_presses(res.events@, m.to@),
     //@ C05 C04 | the only keys this step lifts: outputs of key-producing mappings in effect that carry modifiers (when the fired mapping is key-producing), passed-through trigger keys the mapping does not output, its own non-modifier outputs (lifted and pressed again), any non-modifier key when its repeat is not Normal; and, only while keys are absorbed, held mapping outputs, absorbed keys and trigger keys
     anm_rel(*old(state), *m, res.events@),
+    //@ C04 | a key-producing mapping fires while nothing is absorbed: at the instant its final output key is pressed every modifier it lists is down, and every other modifier that is down is considered pressed and not one of its trigger keys, or is an output key of a modifier-remapping in effect
+    c04_cond(*old(state), *m) ==> c04_anm(*old(state), *m, res.events@),
     //@ C08 | absorbed keys: every key of the fired mapping's absorbing list is absorbed afterwards with the pressed key as trigger; if the output contains a non-modifier key and the pressed key is not the current absorbing trigger, the keys absorbed before are lifted (no longer considered pressed, not passed through) and forgotten, otherwise they stay absorbed
     c08_anm(*old(state), *final(state), *new_key, *m),
     //@ C09 | repeat request
@@ -1496,10 +1607,12 @@ fn add_new_mapping(state: &mut State, new_key: &KeyCode, m: &Mapping) -> (res: S
     !(m.repeat is Special) ==> res.repeat is Disabled,
     match (m.repeat, res.repeat) { (Repeat::Special { keys, delay_ms, interval_ms }, ResultingRepeat::Repeating { keys: k2, delay_ms: d2, interval_ms: i2 }) => keys@ == k2@ && delay_ms == d2 && interval_ms == i2, _ => true },
   { //@ | body
+  hide(nonempty_from); hide(am_sub);
   let mut events: Vec<Event> = Vec::new();
   let ghost nk0 = *new_key;
   proof { assert(all_released(events@)); }
   let ghost h0 = held(*old(state));
+  let ghost mut s_ram = *old(state); let ghost c04c = c04_cond(*old(state), *m);
   //@ C05 C04 | scope of the keys lifted so far
   proof { lemma_anm_rel_empty(*old(state), *m, events@); }
   //@  | frame / auxiliary
@@ -1508,6 +1621,7 @@ fn add_new_mapping(state: &mut State, new_key: &KeyCode, m: &Mapping) -> (res: S
   if is_action_mapping(m) {
     let ghost e0 = events@; let ghost hm0 = held(*state);
     events.append(&mut release_action_mappings(state));
+    proof { s_ram = *state; }
     proof { let c1 = choose|c: Seq<Event>| events@ == e0 + c && apply(hm0, c) == Some(held(*state)) && all_released(c); lemma_apply_append(h0, e0, c1); assert(e0 =~= Seq::<Event>::empty()); assert(e0 + c1 =~= c1);
       lemma_anm_rel_ram(*old(state), *state, *m, c1); assert(jx(*state, m.to@)); assert(nonempty_from(state.active_mappings@)); assert((j2(*old(state)) ==> j2(*state)) && (j3(*old(state)) ==> j3(*state)) && (j4(*old(state)) ==> j4(*state)) && (j6(*old(state)) ==> j6(*state)) && sub(state.input_pressed_keys@, old(state).input_pressed_keys@) && (forall|x: KeyCode| #[trigger] old(state).input_pressed_keys@.contains(x) && (!old(state).mapped_absorbed_keys@.contains(x) || old(state).absorbing_trigger == Some(nk0)) ==> state.input_pressed_keys@.contains(x)) && anm_extra(*old(state), *state, m.absorbing@)); }
   }
@@ -1534,6 +1648,8 @@ fn add_new_mapping(state: &mut State, new_key: &KeyCode, m: &Mapping) -> (res: S
   proof { assert(abs_phase(*old(state), *state, nk0, m.to@)); assert(gone_keep(*state, gone)); assert(all_released(events@)); }
   //@ C05 C04 | scope of the keys lifted so far
   proof { assert(old(state).mapped_absorbed_keys@.len() == 0 ==> pt_s1 == old(state).pass_through_keys@); }
+  //@ C04 | the instant the final output key goes down: listed modifiers down, no stale modifier
+  proof { assert(c04c ==> mo_s1 == s_ram.mapped_output_keys@ && ram_done(s_ram) && s_ram.active_mappings@ == old(state).active_mappings@ && sub(s_ram.mapped_output_keys@, old(state).mapped_output_keys@)); }
   //@  | frame / auxiliary
   proof { assert(held(*state) =~= state.pass_through_keys@.to_set().union(state.mapped_output_keys@.to_set())); }
   let pass_through_keys = &mut state.pass_through_keys;
@@ -1587,6 +1703,10 @@ fn add_new_mapping(state: &mut State, new_key: &KeyCode, m: &Mapping) -> (res: S
     assert(jx(*state, m.to@));
     assert(nonempty_from(state.active_mappings@));
     assert((j2(*old(state)) ==> j2(*state)) && (j3(*old(state)) ==> j3(*state)) && (j4(*old(state)) ==> j4(*state)) && (j6(*old(state)) ==> j6(*state)) && sub(state.input_pressed_keys@, old(state).input_pressed_keys@) && (forall|x: KeyCode| #[trigger] old(state).input_pressed_keys@.contains(x) && (!old(state).mapped_absorbed_keys@.contains(x) || old(state).absorbing_trigger == Some(nk0)) ==> state.input_pressed_keys@.contains(x)) && anm_extra(*old(state), *state, m.absorbing@)); }
+  //@ C04 | the instant the final output key goes down: listed modifiers down, no stale modifier
+  proof { if c04c {
+      assert forall|x: KeyCode| #[trigger] state.pass_through_keys@.contains(x) implies old(state).pass_through_keys@.contains(x) && !m.from@.contains(x) by { assert(pt_s1.contains(x)); }
+      lemma_c04_st_init(*old(state), s_ram, *state, *m); lemma_no_fin_released(events@, m.to@.last()); } }
   for new_key in it: &m.to
     invariant
       //@ C19 | bookkeeping equals the fold of the emitted events; no redundant press or release
@@ -1605,6 +1725,10 @@ fn add_new_mapping(state: &mut State, new_key: &KeyCode, m: &Mapping) -> (res: S
       only_presses(events@, m.to@),
       //@ C05 C04 | scope of the keys lifted so far
       anm_rel(*old(state), *m, events@),
+      //@ C04 | the instant the final output key goes down: listed modifiers down, no stale modifier
+      c04c == c04_cond(*old(state), *m), h0 == held(*old(state)), c04c ==> c04_st(*state, *old(state), *m),
+      c04c && it.index@ < m.to@.len() ==> no_fin(events@, m.to@.last()),
+      c04c && it.index@ == m.to@.len() ==> c04_anm(*old(state), *m, events@),
       //@ C08 | the absorbed list and its trigger are untouched while the outputs are pressed; lifted keys stay lifted
       state.mapped_absorbed_keys@ == ab_s1, state.absorbing_trigger == at_s1, state.input_pressed_keys@ == ip_s1, gone_keep(*state, gone),
       //@  | frame / auxiliary
@@ -1612,7 +1736,7 @@ fn add_new_mapping(state: &mut State, new_key: &KeyCode, m: &Mapping) -> (res: S
       forall|j: int| 0 <= j < m.to@.len() ==> *it.seq()[j] == m.to@[j],
     { //@ | body
     proof { assert(*new_key == m.to@[it.index@ as int]); assert(m.to@.contains(*new_key)); }
-    let ghost hpre = held(*state);
+    let ghost hpre = held(*state); let ghost s_it0 = *state;
     let ghost am0 = state.active_mappings@; let ghost ip_s = state.input_pressed_keys@; let ghost ab0 = state.mapped_absorbed_keys@;
     let ghost e0 = events@; let ghost pt0 = state.pass_through_keys@; let ghost mo0 = state.mapped_output_keys@;
     proof { lemma_ts(pt0, *new_key); lemma_ts(mo0, *new_key); }
@@ -1698,6 +1822,11 @@ fn add_new_mapping(state: &mut State, new_key: &KeyCode, m: &Mapping) -> (res: S
       lemma_only_presses_ext(e0, events@, m.to@, *new_key);
       assert(gone_keep(*state, gone)) by { assert forall|d: KeyCode| #[trigger] gone.contains(d) implies !state.input_pressed_keys@.contains(d) && !state.pass_through_keys@.contains(d) by { if state.pass_through_keys@.contains(d) { assert(pt0.contains(d)); } } }
     }
+    //@ C04 | the instant the final output key goes down: listed modifiers down, no stale modifier
+    proof { if c04c {
+        assert(sub(state.pass_through_keys@, pt0));
+        assert forall|x: KeyCode| #[trigger] state.mapped_output_keys@.contains(x) implies mo0.contains(x) || x == *new_key by {}
+        lemma_c04_iter(*old(state), *m, s_it0, *state, e0, events@, it.index@ as int); } }
   }
   
   for absorbed_key in it: &m.absorbing
@@ -1717,6 +1846,8 @@ fn add_new_mapping(state: &mut State, new_key: &KeyCode, m: &Mapping) -> (res: S
       out_done(m.to@, m.to@.len() as int, events@, held(*state)), only_presses(events@, m.to@),
       //@ C05 C04 | scope of the keys lifted so far
       anm_rel(*old(state), *m, events@),
+      //@ C04 | the instant the final output key goes down: listed modifiers down, no stale modifier
+      c04c ==> c04_anm(*old(state), *m, events@),
       //@ C08 | the keys of the absorbing list handled so far are absorbed; nothing else is added; the trigger is untouched so far
       state.absorbing_trigger == at_s1, gone_keep(*state, gone), sub(ab_s1, state.mapped_absorbed_keys@),
       forall|j: int| 0 <= j < it.index@ ==> state.mapped_absorbed_keys@.contains(#[trigger] m.absorbing@[j]),
@@ -1737,6 +1868,7 @@ fn add_new_mapping(state: &mut State, new_key: &KeyCode, m: &Mapping) -> (res: S
   let ghost am1 = state.active_mappings@;
   state.active_mappings.push(m.clone());
   proof {
+    reveal(nonempty_from); reveal(am_sub);
     let mc = state.active_mappings@.last();
     assert(mview(mc) == mview(*m));
     assert(mc.to@ == m.to@); assert(mc.from@ == m.from@);
@@ -1762,14 +1894,14 @@ fn add_new_mapping(state: &mut State, new_key: &KeyCode, m: &Mapping) -> (res: S
       let ghost e0 = res.events@; let ghost hm0 = held(*state);
       res.events.append(&mut release_all_action_keys(state));
       proof { let c = choose|c: Seq<Event>| res.events@ == e0 + c && apply(hm0, c) == Some(held(*state)) && all_released(c); lemma_apply_append(h0, e0, c);
-        lemma_c03_fire_norepeat(*m, e0, c, hm0, held(*state)); lemma_only_presses_append(e0, c, m.to@); lemma_anm_rel_raak(*old(state), *m, e0, c, hm0, held(*state)); }
+        lemma_c03_fire_norepeat(*m, e0, c, hm0, held(*state)); lemma_only_presses_append(e0, c, m.to@); lemma_anm_rel_raak(*old(state), *m, e0, c, hm0, held(*state)); if c04c { lemma_c04_append(*old(state), *m, e0, c); } }
     },
     Repeat::Special { keys, delay_ms, interval_ms } => {
       // First release action keys
       let ghost e0 = res.events@; let ghost hm0 = held(*state);
       res.events.append(&mut release_all_action_keys(state));
       proof { let c = choose|c: Seq<Event>| res.events@ == e0 + c && apply(hm0, c) == Some(held(*state)) && all_released(c); lemma_apply_append(h0, e0, c);
-        lemma_c03_fire_norepeat(*m, e0, c, hm0, held(*state)); lemma_only_presses_append(e0, c, m.to@); lemma_anm_rel_raak(*old(state), *m, e0, c, hm0, held(*state)); }
+        lemma_c03_fire_norepeat(*m, e0, c, hm0, held(*state)); lemma_only_presses_append(e0, c, m.to@); lemma_anm_rel_raak(*old(state), *m, e0, c, hm0, held(*state)); if c04c { lemma_c04_append(*old(state), *m, e0, c); } }
 
       // Now tell it what key to repeat
       res.repeat = ResultingRepeat::Repeating {
@@ -1818,7 +1950,7 @@ pub open spec fn rrepeat_ok(r: ResultingRepeat) -> bool {
   match r { ResultingRepeat::Repeating { keys, delay_ms, interval_ms } => delay_ms >= 0 && interval_ms >= 0 && keys@.no_duplicates(), _ => true }
 }
 // what the mapper needs of a grouped mapping
-spec fn gm_ok(m: Mapping) -> bool { m.from@.len() >= 1 && repeat_ok(m.repeat) }
+spec fn gm_ok(m: Mapping) -> bool { m.from@.len() >= 1 && repeat_ok(m.repeat) && m.to@.no_duplicates() }
 
 // ---- grouping of the layout by final trigger key (C03: "the last-listed mapping whose final trigger key is that key") ----
 // the views of the mappings of ms whose trigger ends in k, in listed order
@@ -2737,7 +2869,7 @@ proof fn lemma_np_rel_press(o: State, e0: Seq<Event>, k: KeyCode)
   }
 }
 
-//@ C01 C02 C03 C05 C08 C09 C14 C19 | default: fn newly_press
+//@ C01 C02 C03 C04 C05 C08 C09 C14 C19 | default: fn newly_press
 fn newly_press(mapper: &mut Mapper, k: KeyCode) -> (res: StepResult)
   requires
     //@ C19 | bookkeeping equals the fold of the emitted events; no redundant press or release
@@ -2784,6 +2916,8 @@ fn newly_press(mapper: &mut Mapper, k: KeyCode) -> (res: StepResult)
     //@ C05 C04 | the only keys a press step lifts: see anm_scope (a mapping fires) and pt_scope (the key is passed through)
     forall|i: int| #![trigger is_fired(group(old(mapper).layout, k), old(mapper).state, k, i)] is_fired(group(old(mapper).layout, k), old(mapper).state, k, i) ==> anm_rel(old(mapper).state, group(old(mapper).layout, k)[i], res.events@),
     none_fired(group(old(mapper).layout, k), old(mapper).state, k) ==> np_rel(old(mapper).state, res.events@),
+    //@ C04 | a key-producing mapping fires while nothing is absorbed: at the instant its final output key is pressed every modifier it lists is down and no stale modifier is
+    forall|i: int| #![trigger is_fired(group(old(mapper).layout, k), old(mapper).state, k, i)] is_fired(group(old(mapper).layout, k), old(mapper).state, k, i) ==> (c04_cond(old(mapper).state, group(old(mapper).layout, k)[i]) ==> c04_anm(old(mapper).state, group(old(mapper).layout, k)[i], res.events@)),
     //@ C19 | bookkeeping equals the fold of the emitted events; no redundant press or release
     apply(held(old(mapper).state), res.events@) == Some(held(final(mapper).state)),
     //@ C01 C02 C09 | effect of the call on the list of keys considered pressed
@@ -2878,7 +3012,7 @@ fn newly_press(mapper: &mut Mapper, k: KeyCode) -> (res: StepResult)
         any_hit ==> np_origin(*state, st0, g),
         any_hit ==> ip_kept(*state, st0),
         //@ C08 | absorbed keys after the firing
-        any_hit ==> exists|i: int| #![trigger is_fired(g, st0, k, i)] is_fired(g, st0, k, i) && c08_pre(st0, *state, k, g[i]) && only_presses(res.events@, g[i].to@) && anm_rel(st0, g[i], res.events@),
+        any_hit ==> exists|i: int| #![trigger is_fired(g, st0, k, i)] is_fired(g, st0, k, i) && c08_pre(st0, *state, k, g[i]) && only_presses(res.events@, g[i].to@) && anm_rel(st0, g[i], res.events@) && (c04_cond(st0, g[i]) ==> c04_anm(st0, g[i], res.events@)),
         //@  | frame / auxiliary
         should_absorb ==> absorbed_keys@ == ab1,
         !should_absorb ==> (absorbed_keys@.len() == 0 && at1 == Some(k)),
@@ -2937,8 +3071,9 @@ fn newly_press(mapper: &mut Mapper, k: KeyCode) -> (res: StepResult)
       if is_supported(&mapping.from, &state.input_pressed_keys, &absorbed_keys, &k) {
         let ghost hm0 = held(*state); let ghost e0 = res.events@; let ghost s_pre_anm = *state;
         res.append(add_new_mapping(&mut state, &k, &mapping));
-        proof { let c = choose|c: Seq<Event>| res.events@ == e0 + c && apply(hm0, c) == Some(held(*state)) && c03_fire(*mapping, c, held(*state)) && c07_fire(*mapping, held(*state)) && c08_anm(s_pre_anm, *state, k, *mapping) && only_presses(c, mapping.to@) && anm_rel(s_pre_anm, *mapping, c); assert(e0.len() == 0); assert(e0 =~= Seq::<Event>::empty()); assert(e0 + c =~= c);
+        proof { let c = choose|c: Seq<Event>| res.events@ == e0 + c && apply(hm0, c) == Some(held(*state)) && c03_fire(*mapping, c, held(*state)) && c07_fire(*mapping, held(*state)) && c08_anm(s_pre_anm, *state, k, *mapping) && only_presses(c, mapping.to@) && anm_rel(s_pre_anm, *mapping, c) && (c04_cond(s_pre_anm, *mapping) ==> c04_anm(s_pre_anm, *mapping, c)); assert(e0.len() == 0); assert(e0 =~= Seq::<Event>::empty()); assert(e0 + c =~= c);
           assert(st_le(s_pre_anm, st0)); lemma_anm_rel_mono(s_pre_anm, st0, *mapping, c);
+          if c04_cond(st0, *mapping) { assert(ab1.len() == 0) by { if ab1.len() > 0 { assert(ab1.contains(ab1[0])); assert(st0.mapped_absorbed_keys@.contains(ab1[0])); } } assert(c04_cond(s_pre_anm, *mapping)); lemma_c04_mono(s_pre_anm, st0, *mapping, c); }
           assert forall|f: KeyCode| #[trigger] state.active_mappings@.last().from@.contains(f) implies f == k || state.input_pressed_keys@.contains(f) by {
             let j = choose|j: int| 0 <= j < mapping.from@.len() && mapping.from@[j] == f;
             assert((old(mapper).state.input_pressed_keys@.contains(mapping.from@[j]) && !absorbed_keys@.contains(mapping.from@[j])) || mapping.from@[j] == k);
@@ -3054,8 +3189,8 @@ fn newly_press(mapper: &mut Mapper, k: KeyCode) -> (res: StepResult)
   state.input_pressed_keys.push(k);
   proof { lemma_push_contains(ip0, k);
     if hit1 { lemma_c08_final_hit(st0, st_pre, *state, k, g);
-      let a = choose|i: int| #![trigger is_fired(g, st0, k, i)] is_fired(g, st0, k, i) && c08_pre(st0, st_pre, k, g[i]) && only_presses(res.events@, g[i].to@) && anm_rel(st0, g[i], res.events@);
-      assert forall|i: int| #![trigger is_fired(g, st0, k, i)] is_fired(g, st0, k, i) implies only_presses(res.events@, g[i].to@) && anm_rel(st0, g[i], res.events@) by { lemma_fired_unique(g, st0, k, a, i); } }
+      let a = choose|i: int| #![trigger is_fired(g, st0, k, i)] is_fired(g, st0, k, i) && c08_pre(st0, st_pre, k, g[i]) && only_presses(res.events@, g[i].to@) && anm_rel(st0, g[i], res.events@) && (c04_cond(st0, g[i]) ==> c04_anm(st0, g[i], res.events@));
+      assert forall|i: int| #![trigger is_fired(g, st0, k, i)] is_fired(g, st0, k, i) implies only_presses(res.events@, g[i].to@) && anm_rel(st0, g[i], res.events@) && (c04_cond(st0, g[i]) ==> c04_anm(st0, g[i], res.events@)) by { lemma_fired_unique(g, st0, k, a, i); } }
     else if any_hit { assert(res.events@ =~= Seq::<Event>::empty()); lemma_ar_empty(); lemma_only_presses_released(res.events@, seq![k]); lemma_c08_final_keep(st0, st_pre, *state, k, true); lemma_np_rel_empty(st0, res.events@); }
     else if is_mod(k) { lemma_c08_final_keep(st0, st_pre, *state, k, false); }
     else { lemma_c08_final_clear(st0, st_pre, *state, k); }
@@ -3078,6 +3213,8 @@ fn newly_press(mapper: &mut Mapper, k: KeyCode) -> (res: StepResult)
 
 /// x is an output key of a key-producing mapping in effect (given as views) that carries modifiers
 pub open spec fn ram_target_v(av: Seq<MappingV>, x: KeyCode) -> bool { exists|j: int| 0 <= j < av.len() && act_map_v((#[trigger] av[j]).to) && av[j].to.len() > 1 && has_mod(av[j].to) && av[j].to.contains(x) }
+/// x is an output key of a modifier-remapping (output not ending in a non-modifier key) among the views av
+pub open spec fn mod_owner_v(av: Seq<MappingV>, x: KeyCode) -> bool { exists|j: int| 0 <= j < av.len() && !act_map_v((#[trigger] av[j]).to) && av[j].to.contains(x) }
 proof fn lemma_ram_target_v(am: Seq<Mapping>, x: KeyCode)
   requires ram_target(am, x)
   ensures ram_target_v(views(am), x)
@@ -3093,7 +3230,12 @@ proof fn lemma_views_bridge()
     forall|am: Seq<Mapping>, k: KeyCode, x: KeyCode| #[trigger] owned_by_trigger(am, k, x) ==> exists|j: int| 0 <= j < views(am).len() && (#[trigger] views(am)[j]).from.contains(k) && views(am)[j].to.contains(x),
     forall|am: Seq<Mapping>, x: KeyCode, j: int| 0 <= j < views(am).len() && #[trigger] views(am)[j].to.contains(x) ==> out_of(am, x),
     forall|am: Seq<Mapping>, x: KeyCode| #[trigger] ram_target(am, x) ==> ram_target_v(views(am), x),
+    forall|am: Seq<Mapping>, x: KeyCode| #[trigger] mod_owner(am, x) ==> mod_owner_v(views(am), x),
 {
+  assert forall|am: Seq<Mapping>, x: KeyCode| #[trigger] mod_owner(am, x) implies mod_owner_v(views(am), x) by {
+    let j = choose|j: int| 0 <= j < am.len() && !act_map(#[trigger] am[j]) && am[j].to@.contains(x);
+    assert(views(am)[j] == mview(am[j])); assert(!act_map_v(views(am)[j].to));
+  }
   assert forall|am: Seq<Mapping>, k: KeyCode, x: KeyCode| #[trigger] owned_by_trigger(am, k, x) implies exists|j: int| 0 <= j < views(am).len() && (#[trigger] views(am)[j]).from.contains(k) && views(am)[j].to.contains(x) by {
     let j = choose|j: int| 0 <= j < am.len() && (#[trigger] am[j]).from@.contains(k) && am[j].to@.contains(x);
     assert(views(am)[j] == mview(am[j]));
@@ -3102,7 +3244,7 @@ proof fn lemma_views_bridge()
   assert forall|am: Seq<Mapping>, x: KeyCode| #[trigger] ram_target(am, x) implies ram_target_v(views(am), x) by { lemma_ram_target_v(am, x); }
 }
 
-//@ C01 C02 C06 C07 C09 C14 C19 | default: impl Mapper
+//@ C01 C02 C04 C05 C06 C07 C09 C14 C19 | default: impl Mapper
 impl Mapper {
   pub closed spec fn inv(&self) -> bool { wf(self.state) && j1(self.state) && j2(self.state) && j3(self.state) && j4(self.state) && j6(self.state) && nonempty_from(self.state.active_mappings@) && hl_ok(self.layout)
     && j3b(self.layout, self.state) && j5(self.layout, self.state) }
@@ -3188,6 +3330,14 @@ impl Mapper {
         || (!is_mod(x) && !(mv.repeat is Normal)),
       None => (o.mapped_view().contains(x) && ram_target_v(o.active_view(), x)) || (absorbing && (o.mapped_view().contains(x) || o.absorbed_view().contains(x))),
     }
+  }
+  /// C04: at every instant at which the final output key of the fired mapping mv goes down, every modifier mv lists is down, and every other modifier that is down
+  /// is considered pressed and not a trigger key of mv, or is an output key of a modifier-remapping in effect
+  pub open spec fn c04_instant(o: Mapper, mv: MappingV, evs: Seq<Event>) -> bool {
+    forall|p: int| #![trigger evs[p]] 0 <= p < evs.len() && evs[p] == Event::Pressed(mv.to.last()) ==> (match apply(o.held_view(), evs.take(p)) {
+      Some(h) => (forall|q: KeyCode| #[trigger] mv.to.contains(q) && is_mod(q) ==> h.contains(q))
+        && (forall|x: KeyCode| #![trigger h.contains(x)] h.contains(x) && is_mod(x) && !mv.to.contains(x) ==> (o.pressed_view().contains(x) && !mv.from.contains(x)) || mod_owner_v(o.active_view(), x)),
+      None => false })
   }
   /// C05: the only keys the release of k may lift
   pub open spec fn drop_scope(o: Mapper, n: Mapper, k: KeyCode, x: KeyCode) -> bool {
@@ -3429,6 +3579,8 @@ impl Mapper {
       //@ C05 C04 | the only keys a step lifts: on a press, see lift_scope; on the release of k, k itself and output keys of mappings in effect that have k in their trigger, and never a key that a mapping remaining in effect outputs
       match input { Event::Pressed(k) => !old(self).pressed_view().contains(k) ==> forall|x: KeyCode| #[trigger] rel(res.events@, x) ==> Mapper::lift_scope(*old(self), k, x),
                     Event::Released(k) => forall|x: KeyCode| #[trigger] rel(res.events@, x) ==> Mapper::drop_scope(*old(self), *final(self), k, x) },
+      //@ C04 | a key-producing mapping fires while nothing is absorbed: at the instant its final output key is pressed every modifier it lists is already down, and every other modifier that is down is considered pressed and not part of its trigger, or is an output key of a modifier-remapping in effect
+      match input { Event::Pressed(k) => !old(self).pressed_view().contains(k) ==> (match old(self).gfired(k) { Some(mv) => (act_map_v(mv.to) && old(self).absorbed_view().len() == 0) ==> Mapper::c04_instant(*old(self), mv, res.events@), None => true }), _ => true },
     { //@ | body
     broadcast use Mapper::lemma_rest;
     let state = &mut self.state;
@@ -3436,7 +3588,7 @@ impl Mapper {
     match input {
       Pressed(k) => {
         if !state.input_pressed_keys.contains(&k) {
-          proof { let g = group(self.layout, k); lemma_scan(g, self.state, k, g.len() as int); reveal(c03_fire); reveal(c07_fire); reveal(ip_kept); reveal(c08_np); reveal(c08_pre); reveal(only_presses); reveal(anm_rel); reveal(np_rel); lemma_views_bridge(); }
+          proof { let g = group(self.layout, k); lemma_scan(g, self.state, k, g.len() as int); reveal(c03_fire); reveal(c07_fire); reveal(ip_kept); reveal(c08_np); reveal(c08_pre); reveal(only_presses); reveal(anm_rel); reveal(np_rel); reveal(c04_anm); lemma_views_bridge(); }
           newly_press(self, k)
         }
         else {
